@@ -1,6 +1,6 @@
 """Property -> rules table."""
 
-from .rules import inplace, maps, exponent, decomp, threads, evo, tebd, record, iso, optflow, registries, dmrg, bp, linalg, symmetry, gating, circuit, capguard, order, opalgebra, memo, envs, caches, kronalg, reduceorder
+from .rules import inplace, maps, exponent, decomp, threads, evo, tebd, record, iso, optflow, registries, dmrg, bp, linalg, symmetry, gating, circuit, capguard, order, opalgebra, memo, envs, caches, kronalg, reduceorder, simplify
 import functools
 
 COMMON_ASSUMPTIONS = [
@@ -215,7 +215,7 @@ REGISTRY = {
     },
     "C12": {
         "rules": [
-            registries.rule_ag_compress_registry, exponent.rule_view_accrual, capguard.rule_cap_guard, capguard.rule_pair_predicate, capguard.rule_opts_delivered, envs.rule_private_boundary, envs.rule_env_scope,
+            registries.rule_ag_compress_registry, exponent.rule_view_accrual, capguard.rule_cap_guard, capguard.rule_pair_predicate, capguard.rule_opts_delivered, envs.rule_private_boundary, envs.rule_env_scope, envs.rule_stored_env_private, envs.rule_gauge_double_count,
             P(optflow.rule_option_delivery, opts=("max_bond", "cutoff"),
               modules=("quimb.tensor.tn2d", "quimb.tensor.tn3d", "quimb.tensor.tnag.compress", "quimb.tensor.tensor_core"),
               rule="cap-delivery[boundary]", floor=80),
@@ -235,7 +235,7 @@ REGISTRY = {
         "assumptions": COMMON_ASSUMPTIONS,
     },
     "C04": {
-        "rules": [order.rule_gauge_order_binding, iso.rule_iso_invalidate, iso.rule_flag_setter_total, iso.rule_iso_claim, iso.rule_gauge_record_agree, iso.rule_merge_collapses_holders, iso.rule_exp_compensate, iso.rule_strip_member, exponent.rule_view_accrual,
+        "rules": [order.rule_gauge_order_binding, iso.rule_iso_invalidate, iso.rule_flag_setter_total, iso.rule_iso_claim, iso.rule_gauge_record_agree, iso.rule_merge_collapses_holders, iso.rule_exp_compensate, iso.rule_strip_member, exponent.rule_view_accrual, simplify.rule_output_protected,
                   functools.partial(inplace.rule_inplace_effect, family=iso.rewrite_family, rule="inplace-effect[rewrites]", floor=40, controls=0)],
         "explanation": (
             "static: decides (a) the isometry flag left_inds as a typestate — dropped by every data write, low-level "
@@ -503,6 +503,31 @@ _ALSO_TECH3 = {
 for _pid, _txt in _ALSO3.items():
     REGISTRY[_pid]["explanation"] = REGISTRY[_pid]["explanation"] + _txt
 for _pid, _txt in _ALSO_TECH3.items():
+    TECHNIQUE[_pid] = TECHNIQUE[_pid] + _txt
+
+_ALSO4 = {
+    "C04": " An index consumed by a simplification pass on the whole network is proven not to be an output index on every path; the result of isometrize() is flagged on the side its shape makes isometric.",
+    "C05": " A split driver with a fixed form is judged isometric by its registered default, not by the requested absorb; the eigenvalue selection of the iterative hermitian driver, the error after the bond cap and the window size are decided by sibling / ordering rules.",
+    "C06": " The pair a swap-based gate acts on is the requested (i, j) in order.",
+    "C08": " The record is updated only for the object handed back (satisfiability of fork vs in-place receiver); a compressed swap canonicalizes the pair before it moves the record.",
+    "C10": " A truncating two-site update renormalises the kept spectrum; the one-site sweep enforces the bond cap explicitly.",
+    "C11": " A single-site term keeps the side it was assigned to when its bond is flipped; cyclic imaginary-time sweeps renormalise with the full norm.",
+    "C12": " Environments stored from a working network that is contracted further are private copies; a copy used together with `gauges=G` is taken before G is re-inserted; norms are stripped from the contracted boundary only.",
+    "C13": " singular_values (and the Schmidt values / entropies built on it) read the stored exponent; a pair of sites is sorted together with its operator.",
+    "C14": " The output axis of a marginal contraction is selected by the queried index.",
+    "C15": " The sparse partial trace recursion reaches its base case with the reduced dims; (known finding) partial_trace orders the kept subsystems ascending whereas pkron honours the order given.",
+    "C17": " The window driver hands k to both routes.",
+    "C19": " The wrap-around bond of a cyclic chain is embedded at (L-1, 0); same-site operator products keep the order of the term.",
+}
+_ALSO_TECH4 = {
+    "C04": "; path-sensitive must-analysis of membership facts",
+    "C08": "; boolean satisfiability over branch atoms",
+    "C12": "; typestate (extracted / inserted gauges) with correlated-branch handling, view / copy provenance of stored environments",
+    "C14": "; control-dependence of the output spec on the query parameter",
+}
+for _pid, _txt in _ALSO4.items():
+    REGISTRY[_pid]["explanation"] = REGISTRY[_pid]["explanation"] + _txt
+for _pid, _txt in _ALSO_TECH4.items():
     TECHNIQUE[_pid] = TECHNIQUE[_pid] + _txt
 
 from .selftest import make_selftest  # noqa: E402
